@@ -8,7 +8,16 @@ the directory), every exported keystore and every error string are searched for 
 encoding; the rows under the wallet's bucket are compared (key set and value lengths = plaintext
 length + 24 + 16 where the model's term is an encryption) with the term table of Keys/Store.v run
 through the extracted model; the gate outcomes and the unlock state are compared with the extracted
-unlock machine."""
+unlock machine.
+Keystore MANAGER family (harness/cmd/c05 -mgr, model Keys/Manager.v): managers holding 2-3 wallets,
+random UseWallet / SignHash (keys of wallets in use or not) / SignRawTx with UseWallet requests
+scheduled inside the call / ClearPrivKey / export / reveal / removal gate with right and wrong
+passphrases on every wallet; after every step the selection and the unlock state of EVERY managed
+keystore are compared with the extracted manager model (a difference is a violation,
+manager:unlock-state / manager:outcome) and the property's predicates are evaluated on the
+implementation's own observations (all keystores wiped after every completed SignRawTx and every
+ClearPrivKey; a refused attempt changes no keystore but the master-key scratch value and unlocks
+none; an operation on one keystore changes no other)."""
 import json
 import os
 import re
@@ -24,6 +33,7 @@ TRUSTED = [
     "key names of keystore/db.go are read from the repository's source on every run and compared with the names in the model's row table",
     "Go harness: harness/cmd/c05, internal/simx + internal/sim (real WalletManager on LevelDB), internal/bipref + internal/bip39ref (independent derivation of every secret to search for), goleveldb opened on a COPY of the wallet database directory; scrypt N lowered to 16",
     "hooks (build tag verif): masswallet/hooks_verif.go, masswallet/keystore/unlock_verif.go, unlock_salt_verif.go",
+    "manager family: harness/cmd/c05/manager.go on internal/hist + internal/sim; the wallet database is wrapped (mwdb.DB interface) so that UseWallet requests run before chosen read transactions of a SignRawTx call (deterministic interleaving of a concurrent request); model Keys/Manager.v over Keys/Toy.v, list order standing for Go's map order (irrelevant when the address sets of the keystores are disjoint)",
     "not covered: real cryptographic strength; copies of secrets in the Go heap (zeroing is best effort, the GC may keep copies); log files; the random crypto keys (cryptoKeyPriv/Ent/Pub) are unknown to the harness and therefore not searched for",
 ]
 SFIX = True   # see checks/C03.py
@@ -40,9 +50,150 @@ def frames_equal(a, b):
     return len(x) == len(y) and x[0] == y[0] and x[2:] == y[2:]
 
 
+WIPED = "0,1,1,0,0,0"
+
+
+def manager_family(c, exe_go, exe_model, n, only=None):
+    """runs the manager family and judges it; returns (stats dict, correspondence breaks, harness errors)"""
+    impl = os.path.join(c.workdir, "impl-manager.txt")
+    if only is not None:
+        lines = []
+        for f in only[:30]:
+            rc, o, e = V.sh([exe_go, "-mgr", "-worker", "-first", str(f), "-n", "1"], timeout=300)
+            lines.append(o)
+        open(impl, "w").write("".join(lines))
+        gstats = "replay"
+    else:
+        rc, o, e = V.sh([exe_go, "-mgr", "-n", str(n), "-out", impl, "-j", str(V.NCPU)], timeout=3000)
+        gstats = e.strip().splitlines()[-1] if e.strip() else ""
+        if rc != 0:
+            return None, ["harness cmd/c05 -mgr failed to run: " + (o + e)[-1500:]], []
+    rc, mo, me = V.sh("%s < %s" % (exe_model, impl), timeout=3000)
+    if rc != 0:
+        return None, ["model driver failed on the manager family: " + me[-1500:]], []
+    ilines = [l for l in V.read_lines(impl) if l]
+    mlines = mo.splitlines()
+    if len([l for l in ilines if l.startswith("MO\t")]) != len(mlines):
+        return None, ["model driver answered %d of %d manager cases" % (len(mlines), len([l for l in ilines if l.startswith("MO\t")]))], []
+    st = {"histories": set(), "ops": 0, "kinds": {}, "pass_kinds": {}, "distinct": set(), "other_unlocked": 0,
+          "raw_switched": 0, "raw_two_signers": 0, "nothing_in_use": 0, "gen": gstats, "sample": []}
+    corr, herr = [], []
+    passes, prev, seq, diverged, reported = {}, {}, {}, set(), set()
+    mi = 0
+    for l in ilines:
+        f = l.split("\t")
+        if f[0] == "X":
+            herr.append(l)
+            continue
+        h = int(f[1])
+        rerun = "VERIF_SEED=%d /verif/build/bin/c05 -mgr -worker -first %d -n 1" % (c.seed, h)
+        if f[0] == "MW":
+            st["histories"].add(h)
+            passes[h] = {w.split(":")[0]: w.split(":")[1] for w in f[2].split(",")}
+            prev[h] = f[3]
+            seq.setdefault(h, []).append("restart: fresh manager, wallets %s, nothing in use" % ",".join(sorted(passes[h])))
+            diverged.discard(h)
+            if any(x != WIPED for x in f[3].split("|")[1:]) or f[3].split("|")[0] != "-":
+                c.violation("manager:fresh-not-locked", "manager history %d: a freshly loaded manager is not locked with nothing in use: %s" % (h, f[3]),
+                            {"family": "manager", "mhistory": h, "line": l[:600], "rerun": rerun})
+            continue
+        if f[0] != "MO":
+            continue
+        m = mlines[mi].split("\t")
+        mi += 1
+        _, _, kind, wal, passhex, arg, im, ob = f[:8]
+        pk = f[8] if len(f) > 8 else "-"
+        im0 = im.split(":other:")[0]
+        before = prev.get(h, "")
+        prev[h] = ob
+        step = "%s wallet=%s passphrase=%s %s -> %s ; selection|keystores = %s" % (kind, wal, pk, arg, im0, ob)
+        seq.setdefault(h, []).append(step)
+        if len(st["sample"]) < 14:
+            st["sample"].append(l[:300])
+        st["ops"] += 1
+        st["kinds"][kind] = st["kinds"].get(kind, 0) + 1
+        st["pass_kinds"][pk] = st["pass_kinds"].get(pk, 0) + 1
+        st["distinct"].add((kind, pk, im0, before, ob))
+        b, a = before.split("|"), ob.split("|")
+        if a[0] == "-":
+            st["nothing_in_use"] += 1
+        if any(x.startswith("1") and str(i + 1) != a[0] for i, x in enumerate(a[1:])):
+            st["other_unlocked"] += 1
+        if kind == "raw" and (any(x.split("@")[0] for x in arg.split("#")[0].split(";")) or arg.split("#")[1]):
+            st["raw_switched"] += 1
+            if im0 == "ok" and len({x.split("@")[1].split(".")[0] for x in arg.split("#")[0].split(";")}) > 1:
+                st["raw_two_signers"] += 1
+
+        def viol(key, what, model=None):
+            # one report per (key, history): later ones of the same history follow from the first
+            if (key, h) in reported:
+                return
+            reported.add((key, h))
+            c.violation(key, what, {"family": "manager", "mhistory": h, "sequence": seq[h][-60:], "line": l[:1500], "model": model, "rerun": rerun})
+
+        if len(a) != len(b):
+            viol("manager:keystore-set-changed", "manager history %d: the set of managed keystores changed: %s -> %s" % (h, before, ob))
+            continue
+        if im == "panic":
+            viol("manager:panic:%s" % kind, "manager history %d: %s panicked" % (h, kind))
+        refused = im0 != "ok"
+        # --- the property's predicates on the implementation's own observations
+        if (kind == "raw" and im0 != "err:no-wallet-in-use") or kind == "cl":
+            bad = [i + 1 for i, x in enumerate(a[1:]) if x != WIPED]
+            if bad:
+                viol("manager:keystore-not-wiped-after:%s" % kind,
+                     "manager history %d: after the completed %s (%s; keystore in use: %s) keystore %s is not locked and wiped: %s (unlocked,masterKeyZero,hashedZero,branchPriv,cachedPrivKeys,saltZero)"
+                     % (h, "SignRawTx" if kind == "raw" else "ClearPrivKey", im0, a[0], bad, [a[i] for i in bad]))
+        if kind != "sh":
+            for i in range(1, len(a)):
+                if a[i].startswith("1") and not b[i].startswith("1"):
+                    viol("manager:unlocked-by:%s" % kind, "manager history %d: %s (%s) unlocked keystore %d: %s -> %s" % (h, kind, im0, i, b[i], a[i]))
+        if refused and kind in ("sh", "ex", "mn", "ck", "use"):
+            if a[0] != b[0]:
+                viol("manager:refusal-changed-selection:%s" % kind, "manager history %d: refused %s (%s) changed the keystore in use %s -> %s" % (h, kind, im0, b[0], a[0]))
+            for i in range(1, len(a)):
+                if a[i].split(",")[-1] == "1" and b[i].split(",")[-1] == "0":
+                    viol("empty-passphrase-zeroes-salt", "manager history %d: refused %s (%s) zeroed the salt of keystore %d: %s -> %s" % (h, kind, im0, i, b[i], a[i]))
+                elif not frames_equal(b[i], a[i]):
+                    viol("manager:refusal-changed-state:%s" % kind, "manager history %d: refused %s (%s, passphrase %s) changed the state of keystore %d: %s -> %s" % (h, kind, im0, pk, i, b[i], a[i]))
+        if refused and kind == "raw":
+            for i in range(1, len(a)):
+                if not (frames_equal(b[i], a[i]) or a[i] == WIPED):
+                    viol("manager:refusal-changed-state:raw", "manager history %d: refused SignRawTx (%s) left keystore %d neither as it was nor wiped: %s -> %s" % (h, im0, i, b[i], a[i]))
+        # frame: an operation on one keystore changes no other (and not the selection)
+        target = None
+        if kind in ("ex", "mn", "ck"):
+            target = wal
+        elif kind == "sh":
+            target = arg.split(".")[0]
+        if kind in ("ex", "mn", "ck", "sh", "use"):
+            if kind != "use" and a[0] != b[0]:
+                viol("manager:frame:selection:%s" % kind, "manager history %d: %s on keystore %s changed the keystore in use %s -> %s" % (h, kind, target, b[0], a[0]))
+            for i in range(1, len(a)):
+                if str(i) != target and a[i] != b[i]:
+                    viol("manager:frame:%s" % kind, "manager history %d: %s on keystore %s changed keystore %d: %s -> %s" % (h, kind, target, i, b[i], a[i]))
+        # the gate, for every wallet, in use or not
+        if kind in ("ex", "mn", "ck", "sh") and wal in passes.get(h, {}) and (kind != "sh" or arg.endswith(":32")):
+            is_right = passhex == passes[h][wal]
+            want = "ok" if is_right else "err:invalid-passphrase"
+            if im0 != want:
+                viol("manager:gate:%s:%s:%s" % (kind, pk, im0),
+                     "manager history %d: %s on keystore %s (in use: %s) with %s passphrase (%s) answered %s, expected %s (state before %s)"
+                     % (h, kind, wal, b[0], "the right" if is_right else "a wrong", pk, im, want, before))
+        # --- correspondence with the extracted manager model
+        if h not in diverged:
+            if im0 != m[2]:
+                diverged.add(h)
+                viol("manager:outcome", "manager history %d: %s (%s): the implementation answered %s, the model of Keys/Manager.v %s" % (h, kind, arg, im, m[2]), m[2] + " " + m[3])
+            elif ob != m[3]:
+                diverged.add(h)
+                viol("manager:unlock-state", "manager history %d: after %s (%s, %s) the selection|unlock states of the managed keystores are %s, the model of Keys/Manager.v predicts %s" % (h, kind, arg, im0, ob, m[3]), m[3])
+    return st, corr, herr
+
+
 def main(tier, replay=None):
     c = V.Check(PID, tier)
-    proofs_ok = c.proofs(gen_only=["Consts.v"], extra_targets=["Keys/Exec.vo"])
+    proofs_ok = c.proofs(gen_only=["Consts.v"], extra_targets=["Keys/Exec.vo", "Keys/ExecManager.vo"])
     c.log("proofs:", "ok" if proofs_ok else c.proof_break)
     outs, err = V.go_build(["c05"])
     if outs is None:
@@ -60,6 +211,7 @@ def main(tier, replay=None):
     if replay:
         rp = json.load(open(replay))
         firsts = sorted({v["replay"]["history"] for v in rp.get("violations", []) if "history" in v.get("replay", {})})
+        mfirsts = sorted({v["replay"]["mhistory"] for v in rp.get("violations", []) if "mhistory" in v.get("replay", {})})
         os.environ["VERIF_SEED"] = str(rp.get("seed", c.seed))
         lines = []
         for f in firsts[:30]:
@@ -75,6 +227,10 @@ def main(tier, replay=None):
     rc, mo, me = V.sh("%s %s < %s" % (exe, "" if SFIX else "sfix=0", impl), timeout=3000)
     if rc != 0:
         return c.finish(TRUSTED, no_input_break="model driver failed: " + me[-1500:])
+    # the keystore manager family
+    mst, mcorr, mherr = manager_family(c, outs[0], exe, 48 if tier == "quick" else 700, only=(mfirsts if replay else None))
+    if mst is None:
+        return c.finish(TRUSTED, no_input_break=mcorr[0])
 
     ilines = [l for l in V.read_lines(impl) if l]
     mlines = mo.splitlines()
@@ -198,20 +354,30 @@ def main(tier, replay=None):
         hs = sorted({h for h, _ in corr})
         brk = ("the implementation no longer corresponds to the model (Keys/Store.v row table / Keys/Unlock.v) on %d observations (first: history %d: %s); rerun: VERIF_SEED=%d /verif/build/bin/c05 -worker -first %d -n 1"
                % (len(corr), corr[0][0], corr[0][1][:700], c.seed, hs[0]))
+    harness_err += mherr
     if harness_err and not c.violations and not brk:
         brk = "the harness could not run %d histories: %s" % (len(harness_err), harness_err[0][:500])
     sample = hist_lines[min(hist_lines)][:12] if hist_lines else []
     c.coverage.update({
-        "evaluations": nO + nK,
-        "distinct_nontrivial": len(distinct),
+        "evaluations": nO + nK + mst["ops"],
+        "distinct_nontrivial": len(distinct) + len(mst["distinct"]),
         "rule": "one evaluation = one step of a wallet life followed by a full scan (raw LevelDB keys, values, file bytes; exports; errors) and a row-shape comparison, or one secret-needing operation with a candidate passphrase; "
                 "distinct_nontrivial = distinct (operation, passphrase class, outcome, unlock state before/after) and (step kind, number of rows). "
                 "Secrets searched: mnemonic sentence and every 4-word window, entropy, seed, root/purpose/coin/account/branch extended private keys (raw scalar, hex, base58 string), every issued address's private key, private and public passphrases (raw, hex). " + stats,
         "histories": len(hist_lines), "operations": nO, "row_comparisons": nK, "scans": nscan, "bytes_scanned": scanned,
         "passphrase_classes": pass_kinds,
         "model_key_names_checked_against_db_go": sorted(model_names),
-        "samples": [sample],
-        "disagreements_checked": nO + nK,
+        "samples": [sample, mst["sample"]],
+        "manager_family": {
+            "rule": "one evaluation = one operation on a manager holding 2-3 wallets followed by the observation of the selection and of the unlock state of every managed keystore, compared with the extracted model of Keys/Manager.v and judged by the predicates (wiped after SignRawTx / ClearPrivKey, refusal frame, keystore frame, gate); distinct = distinct (operation, passphrase class, outcome, observation before, observation after). " + mst["gen"],
+            "histories": len(mst["histories"]), "operations": mst["ops"], "by_kind": mst["kinds"], "passphrase_classes": mst["pass_kinds"],
+            "distinct_nontrivial": len(mst["distinct"]),
+            "observations_with_an_unlocked_keystore_not_in_use": mst["other_unlocked"],
+            "observations_with_nothing_in_use": mst["nothing_in_use"],
+            "signrawtx_with_selection_change_inside": mst["raw_switched"],
+            "signrawtx_completed_with_two_signing_keystores": mst["raw_two_signers"],
+        },
+        "disagreements_checked": nO + nK + mst["ops"],
         "correspondence_mismatches": len(corr),
     })
     c.assumptions = ["sequential calls", "scrypt N lowered to 16 by the harness",
